@@ -220,6 +220,23 @@ PROPS["C05"] = {
 }
 
 
+PROPS["C08"] = {
+    "level": "exploration",
+    "budget_s": {"quick": 80, "thorough": 2700},
+    "modes": [{"name": "", "runs": {"quick": 2200, "thorough": 60000}, "chunk": 100},
+              {"name": "batch-order", "runs": {"quick": 2500, "thorough": 80000}, "chunk": 250}],
+    "rule": ("mode '' (tier S): one run = a generated (config, store) as in C01 (limits non-binding) and a tuple under test (the generated query, a stored relationship, an unknown namespace, an unknown subject-set namespace, arbitrary unicode object) with max-depth absent / 0 / -1 / huge; "
+             "the engine decision is compared with REST GET and POST check (status-mirroring: 200 <=> allowed, 403 <=> denied; and always-200), gRPC Check, and with the entry of REST and gRPC batches that carry the tuple at a tape-chosen index among valid, no-subject, unknown-namespace and duplicate entries "
+             "(results in request order, one per tuple, a bad entry affects only its own result; over-limit batches are client errors). "
+             "mode 'batch-order' (tier E): BatchCheck of 2-8 distinct queries with individually known reference answers inside a synctest bubble, parallelisation limit 1..6, 3/10 tape-chosen release orders of the workers' storage calls: results[i] must be the answer for tuples[i]. "
+             "non-trivial = the reference derivation needs a hop or rewrite (batch-order: the batch mixes allowed and denied entries); distinct = hash of (config, tuples, query)."),
+    "probes": ["engine_allowed", "engine_denied", "probe_unknown_namespace", "probe_mixed_batch", "probe_batch_over_limit", "probe_mixed_answers", "probe_workers_in_flight"],
+    "real": REAL_S + ["tier E part: real check.Engine.BatchCheck (errgroup workers) scheduled at the storage seam"], "stub": STUB_S,
+    "fault_kinds": {},
+    "assumptions": ["'never allowed' for an unknown namespace accepts both a denied answer and a client error; the transports need not agree on how they refuse"],
+}
+
+
 def evidence(prop, spec, tier, seed, records, deaths, unfinished, planned, wall_s, sim_wall_s, build_s, nworkers, n_new, known_hits):
     runs = 0
     execs = 0
@@ -306,6 +323,9 @@ def evidence(prop, spec, tier, seed, records, deaths, unfinished, planned, wall_
 
 SIM = "deterministic simulation with fault injection"
 MANIFEST_TEXT = {
+ "C08": {"text": "seeded (config, store, tuple) cases compared across the engine, four REST check variants, gRPC Check and REST/gRPC batch entries at tape-chosen positions among bad entries; plus BatchCheck inside the scheduler bubble with tape-chosen worker finishing orders",
+         "note": "limits non-binding so that a decision is one value; HTTP/gRPC wire framing not exercised",
+         "technique": SIM + ": differential transports over generated states, seeded scheduling of batch workers at the storage seam"},
  "C05": {"text": "per generated request the failing SQL statement k is enumerated exhaustively over the statements of the request (x 5 fault kinds), the invalid tuple position over the request, and the crash point over every statement plus 'right after the ack'; a parked-writer / running-readers history is checked with porcupine; requests are sampled around the discovered chunk sizes",
          "note": "fail-stop faults and process-death crashes only; SQLite only; chunk boundaries are discovered at run time, not copied",
          "technique": SIM + ": statement-level fault and crash-point enumeration at the SQL-driver seam, file-snapshot restart, porcupine linearizability check of a scheduled reader/writer history"},
